@@ -104,3 +104,21 @@ Theorem C14_exhaustion_example :
   find_random_sample [0] [[(1, 0, 100)]; [(1, 50, 60)]] 1 61 70 = (Ok (0, 1), [[(1, 0, 100)]; [(1, 50, 60); (1, 61, 70)]]).
 Proof. exact exhaustion_example. Qed.
 Print Assumptions C14_exhaustion_example.
+
+(* soundness of the output-level checker (relation norep) and of the validation checker (relation params) *)
+From HV Require Import C03_Model C03_Check C14_CheckVcf C14_ProofsVcf.
+
+Theorem C14_holds_norep_sound :
+  forall k out,
+  holds_norep k = true -> o_obs k = Ok out -> g_norep (o_cfg k) = true ->
+  forall j v, nth_error (o_vars out) j = Some v ->
+  identifiable (g_data (o_cfg k)) v = true ->
+  NoDup (column out j).
+Proof. exact holds_norep_sound. Qed.
+Print Assumptions C14_holds_norep_sound.
+
+Theorem C14_check_params_sound :
+  forall k, snd (check_params k) = true -> p_norep k = true ->
+  (exists n, In n (p_counts k) /\ n < p_nsamples k) -> p_raised k = true.
+Proof. exact check_params_sound. Qed.
+Print Assumptions C14_check_params_sound.
